@@ -34,6 +34,8 @@ THEOREMS = [
     "JanetModel.Props.C18.checker_sound_entry",
     "JanetModel.Props.C18.gen_certOK",
     "JanetModel.Props.C18.gen_classified",
+    "JanetModel.Props.C18.gen_fieldsOK",
+    "JanetModel.Props.C18.upd_semantics",
     "JanetModel.Props.C18.gen_entriesCover",
     "JanetModel.Props.C18.gen_entries",
     "JanetModel.Props.C18.sandbox_enforced_addr",
